@@ -9,17 +9,29 @@ MANIFEST = dict(
          'get_linkage("C"|"C++"), empty and reserved logograms as constants); every Identifier node spelled w that exists in the Lexicon — '
          'reserved word, name of a built-in or of a symbolic constant, name of a `this` symbol — is the node get_identifier(w) answers; '
          'Logogram / Linkage / Calling_convention / Transfer == (identity of the String nodes) holds iff the spellings are equal and is an '
-         'equivalence. Tied to the code by a differential run of a real impl::Lexicon against the model driver and a specification oracle.',
+         'equivalence; the same holds in every Lexicon of a process that holds several (C04_one_identifier_in_process), and a reserved word '
+         'is answered with the same constant whatever the Lexicon and its state (C04_reserved_word_same_in_every_lexicon). Tied to the code by a '
+         'differential run of real impl::Lexicons against the model driver and a specification oracle: several Lexicons alive in one process with '
+         'interleaved histories, Lexicons constructed in place of destroyed ones, client-built operand types at mmap-placed addresses, and a '
+         'Lexicon that a client unit linked before the library uses during static initialisation — every candidate reserved spelling requested '
+         'there as String, Identifier, Logogram, Linkage and as-type must be the node the same Lexicon and (for constants) fresh Lexicons answer in main().',
     note='Lean kernel; axioms propext/Classical.choice/Quot.sound; hand-written model tied by correspondence on generated histories only; '
-         'interning of String contents is C03 (represented by its specification); harness unifyprobe.cxx, ASan/UBSan, g++.',
+         'interning of String contents is C03 (represented by its specification); several-Lexicon and static-initialisation behaviour of the C++ '
+         'is observed on the generated scripts, not proved; static-initialisation order relies on GNU ld running the initialisers of the probe '
+         'unit (first on the link line) before those of the library; harness unifyprobe.cxx, ASan/UBSan, g++.',
     technique='Lean 4 theorems (invariants over request histories, refinement to a key table) + differential correspondence',
     ref='§4 C04')
 
-RULE = ('4 (quick) / 16 (thorough) histories of 3 000 / 100 000 requests: spellings from all reserved words (every one at least 20 times, through '
+RULE = ('one probe process per run; before main() a namespace-scope object of the probe asks a Lexicon for every u8 literal of src/impl.cxx / builtin.def '
+        '(String, Identifier by word and by String, Logogram, Linkage by word and by String, as-type) and for the names of built-ins and constants; '
+        'main() asks the same Lexicon and two fresh ones again. Then 4 (quick) / 16 (thorough) histories of 3 000 / 100 000 requests, three Lexicons '
+        'alive at a time, interleaved in chunks of 1..233 lines (histories 0 and 2 also asked of a second Lexicon in lockstep), and 5 / 10 pairs '
+        '(short-lived Lexicon, successor constructed in place with recycled node storage); client-built types at placed addresses as operands of '
+        'conversion / ctor / dtor / this / symbol / literal. Spellings from all reserved words (every one at least 20 times, through '
         'every constructor taking a spelling), near misses (prefix, extension, one-byte edit, case), random identifiers, arbitrary bytes and the '
         'empty word; names of built-ins / constants / symbols read back and compared with get_identifier; == of linkages, conventions, '
         'transfers, logograms compared with spelling equality; ~45 % repeats, half through an alternative spelling (word vs String, this/label '
-        'vs get_symbol). A trace is one history; every answer is compared with the specification oracle and with the Lean model')
+        'vs get_symbol). A trace is one history (one Lexicon incarnation); every answer is compared with the specification oracle of its own history and with the Lean model run on the same interleaved script')
 
 
 def run(tier):
